@@ -242,6 +242,9 @@ func netBody(o netOpts, build func(nw *NetWorld)) func(ex *vsched.Exec) string {
 	return func(ex *vsched.Exec) string {
 		nw := &NetWorld{ex: ex}
 		na := startNetNode("a@localhost", netOpts{optA: o.optA, isA: true})
+		// the nodes are not started within the same second: their incarnation stamps (start time in
+		// seconds) differ, as they do for any two nodes outside a test
+		ex.Now += 3_000_000_000
 		nb := startNetNode("b@localhost", o)
 		nw.a = &World{ex: ex, n: na, recs: map[string]*rec{}, pids: map[string]gen.PID{}, tag: "A-"}
 		nw.b = &World{ex: ex, n: nb, recs: map[string]*rec{}, pids: map[string]gen.PID{}, tag: "B-"}
